@@ -100,6 +100,35 @@ theorem C35_missing_in_list_fails_at_eval (g : G) (ps : Props) (row : Row) (p : 
   · rfl
   · simp [substE, hp, eval, plookup, bind, Except.bind]
 
+/-! ### three-valued logic: null is not false -/
+
+/-- AND / OR / XOR / NOT of the model are Kleene's: an unknown operand stays unknown unless
+the other operand decides the result -/
+theorem C35_connectives_three_valued :
+    binop .or .null (.bool false) = .ok .null ∧ binop .or .null (.bool true) = .ok (.bool true)
+    ∧ binop .and .null (.bool true) = .ok .null ∧ binop .and .null (.bool false) = .ok (.bool false)
+    ∧ binop .xor .null (.bool true) = .ok .null ∧ unop .not .null = .ok .null
+    ∧ binop .inList .null .nil = .ok (.bool false)
+    ∧ binop .inList (.int 1) (.cons .null .nil) = .ok .null :=
+  ⟨rfl, rfl, rfl, rfl, rfl, rfl, rfl, rfl⟩
+
+/-- substituting `$p = null` as a direct operand of AND keeps the result unknown, also under
+NOT and IS NULL — for every graph and row -/
+theorem C35_null_param_under_connectives (g : G) (row : Row) :
+    eval g [] row (substE [(0, .null)] (.un .not (.bin .and (.param 0) (.lit (.bool true))))) = .ok .null
+    ∧ eval g [] row (substE [(0, .null)] (.un .isNull (.bin .or (.param 0) (.lit (.bool false)))))
+        = .ok (.bool true) :=
+  ⟨rfl, rfl⟩
+
+/-- the rewrite of the seeded change C35-a (fold AND / OR reading a null literal as false) is
+**not** semantics preserving: on `$p OR false` with `$p = null` it answers false, the
+unfolded (= inlined) expression answers null -/
+theorem C35_fold_null_as_false_unsound :
+    okOf (eval G.empty [] [] (foldConn (substE [(0, .null)] (.bin .or (.param 0) (.lit (.bool false))))))
+      = some (.bool false)
+    ∧ okOf (eval G.empty [] [] (substE [(0, .null)] (.bin .or (.param 0) (.lit (.bool false)))))
+      = some .null := by decide
+
 /-! ### "written as a literal" is well defined -/
 
 /-- strings: every code point, quotes and backslashes included -/
